@@ -4,7 +4,7 @@ package c19
 //
 // Space: for every curve with a public Hash / HashWithDst (k256, p256, pallas, vesta, BLS12-381 G1 and G2,
 // edwards25519, curve25519 and the prime-subgroup wrappers of the last two) the full grid
-//   message in {RFC 9380 Appendix J messages} ∪ {byte pattern of every length 0..300 (thorough 0..1024)}
+//   message in {RFC 9380 Appendix J messages} ∪ {byte pattern of every length 0..200 (thorough 0..1024)}
 //   DST     in {suite default (Hash), "a", 255 bytes, 256 bytes (oversize-DST path), "QUUX-V01-CS02-with-"+suite, …}
 // and for every field with a public Hash (scalar and base fields) the same message set.
 // Oracle: deterministic; on the curve (curve equation in math/big) and annihilated by the prime group order
@@ -234,7 +234,7 @@ var (
 // gridMsgs: RFC 9380 messages ∪ pattern of every length 0..maxLen, without duplicates (the empty message).
 func gridMsgs() [][]byte {
 	gridMsgsOnce.Do(func() {
-		maxLen := 300
+		maxLen := 200 // 201 consecutive lengths: every alignment of a 64- or 128-byte hash block boundary occurs
 		if engine.Thorough() {
 			maxLen = 1024
 		}
@@ -803,7 +803,7 @@ func h2cSections() {
 	for _, f := range h2fFields {
 		_, _ = f.hash([]byte("warm-up"))
 	}
-	sec := engine.Explore(gridBody, engine.Opts{Name: "h2c/grid", Budget: engine.Budget(4*time.Minute, 30*time.Minute)})
+	sec := engine.Explore(gridBody, engine.Opts{Name: "h2c/grid", Budget: engine.Budget(6*time.Minute, 40*time.Minute)})
 	if !sec.Skipped {
 		gridComplete = sec.Exhaustive
 		for _, g := range gridSets {
